@@ -566,8 +566,10 @@ class PopulationBalanceModel:
         dXdt = (self._netFlux[:-1] - self._netFlux[1:])
 
         #Find size class for nucleated particles
-        nRad = np.argmax(self.PSDbounds > nucRadius) - 1
-        dXdt[nRad] += nucRate
+        #A nucleation radius below the smallest size class (including 0, which denotes no nucleation) belongs to no class
+        if nucRadius >= self.PSDbounds[0]:
+            nRad = np.argmax(self.PSDbounds > nucRadius) - 1
+            dXdt[nRad] += nucRate
 
         return dXdt
     
@@ -618,8 +620,10 @@ class PopulationBalanceModel:
         dXdt = (self._netFlux[:-1] - self._netFlux[1:])
 
         #Find size class for nucleated particles
-        nRad = np.argmax(self.PSDbounds > nucRadius) - 1
-        dXdt[nRad] += nucRate
+        #A nucleation radius below the smallest size class (including 0, which denotes no nucleation) belongs to no class
+        if nucRadius >= self.PSDbounds[0]:
+            nRad = np.argmax(self.PSDbounds > nucRadius) - 1
+            dXdt[nRad] += nucRate
 
         return dXdt
     
